@@ -63,14 +63,28 @@ def handle (st : St) (n : Nat) (line : String) : Result := Id.run do
         let f2 := fail f.st n "C17" s!"configured log {(g "log").getD "?"} has a feeder type but is never fed after start-up: the feeder list and the witness map do not describe the same logs"
         return { st := f2.st, out := f.out ++ f2.out }
       return f
+  | "E2E" :: rest =>
+    let g := field rest
+    let st := st.bump "bastion.e2e.connect"
+    if (g "connect").getD "0" != "1" then
+      let msg := ((g "err").bind hexOfString).map (fun b => String.fromUTF8! (ByteArray.mk b.toArray)) |>.getD "?"
+      return fail st n "C10" s!"the witness did not establish its reverse connection to the bastion: {msg.take 120}"
+    else if (g "tls13").getD "0" != "1" || (g "alpn").getD "" != hx (B.ofString "bastion/0") then
+      return fail st n "C10" "the reverse connection is not TLS 1.3 with ALPN bastion/0"
+    else return { st := { st with nOK := st.nOK + 1 }, out := [s!"OK {n}"] }
   | "OMX" :: rest =>
     let g := field rest
     let msg := ((g "err").bind hexOfString).map (fun b => String.fromUTF8! (ByteArray.mk b.toArray)) |>.getD "?"
     let st := st.bump "omni.stopped"
     if (g "exited").getD "0" == "1" then
-      let f := fail st n "C17" s!"omniwitness.Main stopped at start-up with the configured logs ({(g "store").getD "?"}): {msg.take 160}"
-      let f2 := fail f.st n "C14" s!"omniwitness.Main stopped at start-up: no log is followed ({msg.take 120})"
-      return { st := f2.st, out := f.out ++ f2.out }
+      if (g "phase").getD "" == "startup" then
+        let f := fail st n "C17" s!"omniwitness.Main stopped at start-up with the configured logs ({(g "store").getD "?"}): {msg.take 160}"
+        let f2 := fail f.st n "C14" s!"omniwitness.Main stopped at start-up: no log is followed ({msg.take 120})"
+        return { st := f2.st, out := f.out ++ f2.out }
+      else
+        let f := fail st n "C19" s!"omniwitness.Main returned while serving ({(g "store").getD "?"} {(g "phase").getD "?"}): what a log server answered made the process stop: {msg.take 140}"
+        let f2 := fail f.st n "C14" s!"omniwitness.Main returned while serving ({(g "phase").getD "?"}): no log is followed any more ({msg.take 100})"
+        return { st := f2.st, out := f.out ++ f2.out }
     else
       return fail st n "C14" s!"{(g "store").getD "?"} {(g "phase").getD "?"}: the service stopped answering GET checkpoint ({(g "unanswered").getD "?"} requests timed out): it no longer follows or serves any log"
   | "HF" :: rest =>
